@@ -285,7 +285,7 @@ func (ca *catchAnalysis) dispatchCallee(ci *callInfo) (string, bool) {
 	if ci == nil {
 		return "", false
 	}
-	if ci.invoke != nil && (ci.invoke.Name() == "process" || ci.invoke.Name() == "validate") {
+	if ci.invoke != nil && (ci.invoke.Name() == ca.P.roles.MProcess || ci.invoke.Name() == ca.P.roles.MValidate) {
 		return "ZogSchema." + ci.invoke.Name(), true
 	}
 	if ci.static != nil {
@@ -513,9 +513,9 @@ func (ca *catchAnalysis) run(fn *ssa.Function, init flagState) ([]dispatchSite, 
 						}
 						// effect of the call on av
 						switch {
-						case ci.invoke != nil && (ci.invoke.Name() == "process" || ci.invoke.Name() == "validate"):
+						case ci.invoke != nil && (ci.invoke.Name() == ca.P.roles.MProcess || ci.invoke.Name() == ca.P.roles.MValidate):
 							kinds := R.Process
-							if ci.invoke.Name() == "validate" {
+							if ci.invoke.Name() == ca.P.roles.MValidate {
 								kinds = R.Validate
 							}
 							for _, k := range sortedKeys(kinds) {
